@@ -9,51 +9,54 @@ import (
 	"verif/internal/run"
 )
 
+var c13NamePositions = []string{"object", "object-field", "field-argument", "interface", "interface-field", "enum", "enum-value", "input", "input-field", "union", "directive", "directive-argument"}
+
+// c13BuildTypes makes a small set of types in Go; the name at position pos is bad (pos "": everything is well-formed).
+func c13BuildTypes(pos, bad string) []ggql.Type {
+	ref := func(n string) ggql.Type { return &ggql.Ref{Base: ggql.Base{N: n}} }
+	nm := func(p, good string) string {
+		if p == pos {
+			return bad
+		}
+		return good
+	}
+	q := &ggql.Object{Base: ggql.Base{N: "Query"}}
+	_ = q.AddField(&ggql.FieldDef{Base: ggql.Base{N: "a"}, Type: ref("Int")})
+	iface := &ggql.Interface{Base: ggql.Base{N: nm("interface", "ZzNode")}}
+	_ = iface.AddField(&ggql.FieldDef{Base: ggql.Base{N: nm("interface-field", "x")}, Type: ref("Int")})
+	o := &ggql.Object{Base: ggql.Base{N: nm("object", "ZzThing")}}
+	f := &ggql.FieldDef{Base: ggql.Base{N: nm("object-field", "f")}, Type: ref("Int")}
+	_ = f.AddArg(&ggql.Arg{Base: ggql.Base{N: nm("field-argument", "arg")}, Type: ref("Int")})
+	_ = o.AddField(f)
+	e := &ggql.Enum{Base: ggql.Base{N: nm("enum", "ZzColor")}}
+	_ = e.AddValue(&ggql.EnumValue{Value: ggql.Symbol(nm("enum-value", "RED"))})
+	in := &ggql.Input{Base: ggql.Base{N: nm("input", "ZzIn")}}
+	_ = in.AddField(&ggql.InputField{Base: ggql.Base{N: nm("input-field", "n")}, Type: ref("Int")})
+	u := &ggql.Union{Base: ggql.Base{N: nm("union", "ZzU")}, Members: []ggql.Type{o}}
+	d := &ggql.Directive{Base: ggql.Base{N: nm("directive", "zzDir")}, On: []ggql.Location{ggql.LocField}}
+	_ = d.AddArg(&ggql.Arg{Base: ggql.Base{N: nm("directive-argument", "da")}, Type: ref("Int")})
+	return []ggql.Type{q, iface, o, e, in, u, d}
+}
+
 // c13BuiltNames: the name rules hold for schemas built from types too (Root.AddTypes with types made in Go: AddField,
 // AddArg, AddValue) - a route on which names never pass the tokenizer, so any string can arrive. One small well-formed
 // set of types; each of the name positions in turn gets a name that is no GraphQL name (bad first character, bad
-// character inside, at the end, blank, reserved prefix, leading digit): the load must be refused naming the offender,
-// and the well-formed set itself must be accepted.
+// character inside, at the end, blank, reserved prefix, leading digit, characters beyond Latin-1, bytes that are not
+// UTF-8): the load must be refused naming the offender, and the well-formed set itself must be accepted.
 func c13BuiltNames(c *run.Ctx) int {
-	positions := []string{"object", "object-field", "field-argument", "interface", "interface-field", "enum", "enum-value", "input", "input-field", "union", "directive", "directive-argument"}
-	bads := []string{"-name", "$name", ".name", "@name", " name", "-", "#", "na-me", "na me", "name-", "name!", "9name", "__name", "né", "na\x00me", "\xffname", "名前", "nаme", "name\u2028"}
-	ref := func(n string) ggql.Type { return &ggql.Ref{Base: ggql.Base{N: n}} }
-	build := func(pos, bad string) []ggql.Type {
-		nm := func(p, good string) string {
-			if p == pos {
-				return bad
-			}
-			return good
-		}
-		q := &ggql.Object{Base: ggql.Base{N: "Query"}}
-		_ = q.AddField(&ggql.FieldDef{Base: ggql.Base{N: "a"}, Type: ref("Int")})
-		iface := &ggql.Interface{Base: ggql.Base{N: nm("interface", "ZzNode")}}
-		_ = iface.AddField(&ggql.FieldDef{Base: ggql.Base{N: nm("interface-field", "x")}, Type: ref("Int")})
-		o := &ggql.Object{Base: ggql.Base{N: nm("object", "ZzThing")}}
-		f := &ggql.FieldDef{Base: ggql.Base{N: nm("object-field", "f")}, Type: ref("Int")}
-		_ = f.AddArg(&ggql.Arg{Base: ggql.Base{N: nm("field-argument", "arg")}, Type: ref("Int")})
-		_ = o.AddField(f)
-		e := &ggql.Enum{Base: ggql.Base{N: nm("enum", "ZzColor")}}
-		_ = e.AddValue(&ggql.EnumValue{Value: ggql.Symbol(nm("enum-value", "RED"))})
-		in := &ggql.Input{Base: ggql.Base{N: nm("input", "ZzIn")}}
-		_ = in.AddField(&ggql.InputField{Base: ggql.Base{N: nm("input-field", "n")}, Type: ref("Int")})
-		u := &ggql.Union{Base: ggql.Base{N: nm("union", "ZzU")}, Members: []ggql.Type{o}}
-		d := &ggql.Directive{Base: ggql.Base{N: nm("directive", "zzDir")}, On: []ggql.Location{ggql.LocField}}
-		_ = d.AddArg(&ggql.Arg{Base: ggql.Base{N: nm("directive-argument", "da")}, Type: ref("Int")})
-		return []ggql.Type{q, iface, o, e, in, u, d}
-	}
+	bads := []string{"-name", "$name", ".name", "@name", " name", "-", "#", "na-me", "na me", "name-", "name!", "9name", "__name", "né", "na\x00me", "\xffname", "名前", "nаme", "name "}
 	done := 0
 	root := ggql.NewRoot(nil)
 	var gerr error
-	if pv, _ := run.Protect(func() { gerr = root.AddTypes(build("", "")...) }); pv != nil || gerr != nil {
+	if pv, _ := run.Protect(func() { gerr = root.AddTypes(c13BuildTypes("", "")...) }); pv != nil || gerr != nil {
 		c.Violation("c13-wellformed-rejected", map[string]interface{}{"diag": "the well-formed set of built types was refused", "error": fmt.Sprint(pv, gerr)})
 		return 0
 	}
-	for _, pos := range positions {
+	for _, pos := range c13NamePositions {
 		for _, bad := range bads {
 			root := ggql.NewRoot(nil)
 			var err error
-			pv, _ := run.Protect(func() { err = root.AddTypes(build(pos, bad)...) })
+			pv, _ := run.Protect(func() { err = root.AddTypes(c13BuildTypes(pos, bad)...) })
 			done++
 			c.Eval(fmt.Sprintf("built-name|%s|%q", pos, bad), true)
 			c.Bucket("rule", "built-types:ill-formed-name-of-"+pos)
